@@ -31,6 +31,7 @@ impl World {
         let drops0 = drops_len();
         let mut ret_some = None;
         let snap_pre = if self.verify && (op.is_mutator()) { Some(self.arena().verif_heap_snapshot(SNAP_CAP)) } else { None };
+        let snap_pre2 = snap_pre.clone();
         let nobj0 = self.sh.objs.len();
         let res = self.apply_inner(op, &mut ret_some);
         let post = self.phase();
@@ -98,16 +99,38 @@ impl World {
         // ---- C10 transition monitors
         // (a finalize operation first runs finish_marking / mark_debt, which is collection work)
         if cb && !(op.is_fin() && (pre != P::Marked || (op.k == K::FinQuery && op.a == 1))) {
-            let allowed = self.credit_calls as f64 * PACING.mark_factor + 1e-9;
+            // A forward barrier / resurrect may mark its child on the spot, which earns one mark credit -
+            // but only the *first* marking of an object counts. The pre-state colour of the child (read
+            // through the snapshot hook) is used to tighten the allowance, never to excuse a decrease.
+            let mut credit_calls = self.credit_calls;
+            if let Some(sp) = &snap_pre2 {
+                let col = |id: u8| -> Option<u8> {
+                    let a = self.addrs.iter().rev().find(|e| e.1 == id)?.0;
+                    sp.all.iter().find(|o| o.addr == a).map(|o| o.color)
+                };
+                let child = match op.k {
+                    K::Adopt => Some(op.d),
+                    K::BarrierOnly | K::AdoptWeak | K::LeafBarrier => Some(op.c),
+                    K::AdoptBy2 => Some(op.a),
+                    K::AdoptUp => self.sh.objs[op.b as usize].w,
+                    _ => None,
+                };
+                if let Some(c) = child {
+                    if matches!(col(c), Some(1..=3)) {
+                        credit_calls = 0;
+                    }
+                }
+            }
+            let allowed = credit_calls as f64 * PACING.mark_factor + 1e-9;
             if debt_post < debt_pre - allowed {
                 viol!(
                     "c10.debt_decreased_in_callback",
-                    "allocation_debt() went from {debt_pre} to {debt_post} across a callback ({op:?}) that made {} forward-barrier/resurrect call(s)",
-                    self.credit_calls
+                    "allocation_debt() went from {debt_pre} to {debt_post} across a callback ({op:?}) that made {} forward-barrier/resurrect call(s) on a not yet marked object",
+                    credit_calls
                 );
             }
         }
-        if matches!(op.k, K::CloneH | K::DropH) && (debt_post != debt_pre || self.metrics.total_gc_count() != cnt_pre) {
+        if matches!(op.k, K::CloneH | K::DropH | K::PDropH) && (debt_post != debt_pre || self.metrics.total_gc_count() != cnt_pre) {
             viol!("c10.handle_op_changed_metrics", "{op:?} changed metrics");
         }
 
@@ -118,7 +141,7 @@ impl World {
         if !self.sc.fin {
             return Ok(());
         }
-        if (cb || matches!(op.k, K::DropH | K::CloneH)) && matches!(pre, P::Marking | P::Marked) {
+        if (cb || matches!(op.k, K::DropH | K::CloneH | K::PDropH)) && matches!(pre, P::Marking | P::Marked) {
             // (dropping a handle un-roots its target: a mutation of the root set)
             self.mutated = true;
         }
@@ -155,7 +178,7 @@ impl World {
 
     fn c08(&self, op: Op, pre: P, post: P, ret_some: Option<bool>) -> VResult {
         let nonempty = self.metrics.total_gc_count() > 0;
-        if is_callback(op) || matches!(op.k, K::CloneH | K::DropH | K::AdjustDebt | K::SetPacing) {
+        if is_callback(op) || matches!(op.k, K::CloneH | K::DropH | K::PDropH | K::AdjustDebt | K::SetPacing) {
             if op.is_fin() && !self.last_fin_ran {
                 if post != pre {
                     viol!("c08.callback_phase", "{op:?}: no MarkedArena was handed out but the phase moved {pre:?} -> {post:?}");
@@ -475,6 +498,7 @@ impl World {
                     }
                     Some(_) => {
                         ops.push(Op::n1(K::DropH, hi));
+                        ops.push(Op::n1(K::PDropH, hi));
                         for r in 0..sc.r {
                             ops.push(Op::n2(K::FetchRoot, hi, r));
                         }
@@ -487,13 +511,18 @@ impl World {
         }
         if sc.fin {
             ops.push(Op::n1(K::FinQuery, 0));
-            ops.push(Op::n1(K::FinQuery, 1));
+            if !sc.fin_min {
+                ops.push(Op::n1(K::FinQuery, 1));
+            }
             for p in &nodes {
                 if self.sh.objs[*p as usize].w.is_some() {
                     ops.push(Op::n1(K::FinRes, *p));
-                    ops.push(Op::n1(K::FinGcRes, *p));
-                    for q in &nodes {
-                        ops.push(Op::n3(K::FinResStore, *p, *q, 0));
+                    ops.push(Op::n1(K::FinResChild, *p));
+                    if !sc.fin_min {
+                        ops.push(Op::n1(K::FinGcRes, *p));
+                        for q in &nodes {
+                            ops.push(Op::n3(K::FinResStore, *p, *q, 0));
+                        }
                     }
                 }
             }
@@ -805,7 +834,29 @@ impl World {
                 r?;
             }
         }
+        // a set created only now (in a third arena) may land on the address of the dead arena's set
+        let late = World::new(Scope { sets: 1, ..self.sc }, 768);
+        {
+            let this: &World = &self;
+            let r = guarded("presentation to a set created after the arena died", || -> VResult {
+                for (hi, h) in this.hs.iter().enumerate() {
+                    let Some(h) = h else { continue };
+                    late.arena().mutate(|_, root| -> VResult {
+                        let s = root.sets[0].unwrap();
+                        if s.contains(h) || s.try_fetch(h).is_ok() {
+                            viol!("c14.dead_arena_handle_accepted", "a set created after the handle's arena was destroyed accepted handle {hi}");
+                        }
+                        Ok(())
+                    })?;
+                }
+                Ok(())
+            });
+            if let Caught::Done(r) = r? {
+                r?;
+            }
+        }
         self.hs = [None, None, None];
+        drop(late);
         drop(fresh);
         drop(other);
         self.sync_logs()?;
